@@ -121,6 +121,8 @@ class Ctx:
         t0 = time.time()
         res = s.check()
         self.r["solver_s"] += time.time() - t0
+        if res != z3.unknown:
+            self._cross(tag, s, res)
         if res == z3.unsat:
             self.r["unsat"] += 1
             return True
@@ -142,6 +144,46 @@ class Ctx:
             return False
         self.violation(rep.get("sig") or f"{tag}", rep.get("what", tag), rep.get("detail"), tag=tag, info=info)
         return False
+
+    def _cross(self, tag, s, res):
+        """thorough tier: re-decide a sample of obligations with /usr/bin/z3 4.8.12 and the cvc5 1.0.3 binary (SMT-LIB2 export);
+        a disagreement or an `(error` line makes the run inconclusive"""
+        if self.quick or os.environ.get("CGV_NO_CROSS"):
+            return
+        self._ncross = getattr(self, "_ncross", 0) + 1
+        if self._ncross % 40 != 1 or self.r["counters"].get("cross_checked", 0) >= 12:
+            return
+        import subprocess
+        import tempfile
+
+        try:
+            txt = "(set-logic ALL)\n" + s.to_smt2()
+        except Exception:  # noqa
+            return
+        if len(txt) > 2_000_000:
+            return
+        self.count("cross_checked")
+        with tempfile.NamedTemporaryFile("w", suffix=".smt2", prefix="cgv_x_", delete=True) as f:
+            f.write(txt)
+            f.flush()
+            for name, cmd in (("z3-4.8.12", ["/usr/bin/z3", "-T:20", f.name]), ("cvc5-1.0.3", ["cvc5", "--tlimit=20000", f.name])):
+                try:
+                    p = subprocess.run(cmd, capture_output=True, text=True, timeout=40)
+                    out = (p.stdout + p.stderr).strip()
+                except Exception as e:  # noqa
+                    out = f"timeout/{e!r}"
+                first = out.split("\n")[0].strip() if out else ""
+                if "(error" in out:
+                    self.count(f"cross_{name}_error")
+                    self.r["inconclusive"].append({"tag": tag, "case": self.case_id, "why": f"{name}: {out[:200]}"})
+                elif first in ("sat", "unsat"):
+                    if first == str(res):
+                        self.count(f"cross_{name}_agree")
+                    else:
+                        self.count(f"cross_{name}_disagree")
+                        self.r["inconclusive"].append({"tag": tag, "case": self.case_id, "why": f"{name} says {first}, z3 5.1.0 says {res}"})
+                else:
+                    self.count(f"cross_{name}_noanswer")
 
     def twin(self, tag, formulas):
         """vacuity guard: these formulas must be satisfiable"""
